@@ -173,6 +173,7 @@ type rootCtx struct {
 	unsupported []string
 	events    []string
 	proxies   []*proxy
+	seenLens  []*Term
 }
 
 type Exec struct {
@@ -201,6 +202,9 @@ type Exec struct {
 	tagFacts map[string]bool
 	onAcquire func(e *Exec, lock Val, level int)
 	onAccess  func(e *Exec, p *Ptr, write bool)
+	allocOn   bool
+	ifaceCon  types.Type // non-nil: e.con is the contract of this interface's method
+	inSize    *Term // total length of byte/string inputs of the unit function
 }
 
 type deferRec struct {
@@ -385,6 +389,14 @@ func (e *Exec) fromTerm(t *Term, typ types.Type, assumeInv bool) Val {
 		t = e.vc.Define("ld", t)
 		e.vc.Assume(e.g, invOf(typ, t, e.st.ac))
 	}
+	if e.allocOn && e.vc.frozen == 0 {
+		switch t.Sort {
+		case SSlice:
+			e.root.seenLens = append(e.root.seenLens, SlLen(t))
+		case SStr:
+			e.root.seenLens = append(e.root.seenLens, StrLen(t))
+		}
+	}
 	if pt, ok := types.Unalias(typ).Underlying().(*types.Pointer); ok {
 		return e.ptrFromRef(t, pt.Elem())
 	}
@@ -416,7 +428,9 @@ func (e *Exec) toTerm(v Val, typ types.Type) *Term {
 			return e.mergeTerms(gs, ts, "p")
 		}
 		e.Unsupported("interior or local pointer used as a value (%s)", e.P.posString(instrPos(e.curInstr)))
-	case *FnVal, *ClosureVal, *BuiltinVal:
+	case *FnVal:
+		return IntLit(fnID(x.Fn))
+	case *ClosureVal, *BuiltinVal:
 		return e.vc.Fresh("fnval", SInt)
 	case *IterVal:
 		e.Unsupported("iterator as value")
@@ -631,6 +645,9 @@ func (e *Exec) analyzeLoops() {
 			for _, in := range b.Instrs {
 				if _, ok := in.(*ssa.DebugRef); ok {
 					continue
+				}
+				if _, ok := in.(*ssa.Phi); ok {
+					continue // a phi carries the position of the variable's declaration, possibly outside the loop
 				}
 				p := in.Pos()
 				if !p.IsValid() {
@@ -1327,4 +1344,43 @@ func (e *Exec) closeLoop(lp *Loop) {
 	e.checkVariants(lp)
 	e.restoreRegs(saved)
 	e.g, e.st = saveG, saveSt
+}
+
+// fieldNonNil: the location p ends in a struct field declared `nonnil` in a //@ type block
+// (a representation invariant that is assumed, and listed as such).
+func (e *Exec) fieldNonNil(p *Ptr) bool {
+	if p.Kind == PMulti {
+		for _, a := range p.Alts {
+			if !e.fieldNonNil(a.P) {
+				return false
+			}
+		}
+		return len(p.Alts) > 0
+	}
+	if len(p.Path) == 0 {
+		return false
+	}
+	last := p.Path[len(p.Path)-1]
+	if last.Idx != nil {
+		return false
+	}
+	n, ok := types.Unalias(last.ContT).(*types.Named)
+	if !ok {
+		return false
+	}
+	tn := n.Obj().Name()
+	if n.Obj().Pkg() != nil {
+		tn = shortName(n.Obj().Pkg().Path()) + "." + tn
+	}
+	ts := e.P.TypeSpecs[tn]
+	if ts == nil {
+		return false
+	}
+	st := n.Underlying().(*types.Struct)
+	attrs := ts.Fields[st.Field(last.Field).Name()]
+	if _, ok := attrs["nonnil"]; ok {
+		e.vc.Trusted["representation invariant (assumed): "+tn+"."+st.Field(last.Field).Name()+" is never nil"] = true
+		return true
+	}
+	return false
 }
